@@ -2015,3 +2015,94 @@ package kcache
   modifies b.log
   ensures (and (= {b.log} {log}) (= result {b}))
 @*/
+
+// ---- accessors of the internal actors: each implementation is proved against the interface contract its
+// callers rely on (the receiver's fields are non-nil: established by the constructors, see newLister /
+// newWatcher / newCache / newWatchSession) ----
+
+/*@ func (*kcache._lister).Result
+  props C03 C13
+  theory actors
+  implements kcache.lister.Result
+  requires [objinv] (and (not (= {l} vnil)) (not (= {l.resultch} vnil)))
+  ensures [the-listers-result-channel] (= result {l.resultch})
+@*/
+/*@ func (*kcache._lister).Done
+  props C12 C03
+  theory actors
+  implements kcache.lister.Done
+  requires [objinv] (and (not (= {l} vnil)) (not (= {l.lc} vnil)))
+  ensures [done-of-its-own-lifecycle] (= result (lc-done {l.lc}))
+@*/
+/*@ func (*kcache._lister).Error
+  props C14
+  theory actors
+  implements kcache.lister.Error
+  requires [objinv] (and (not (= {l} vnil)) (not (= {l.lc} vnil)))
+  ensures [error-of-its-own-lifecycle] (= result (lc-error {l.lc}))
+@*/
+/*@ func (*kcache._watcher).Done
+  props C12 C04
+  theory actors
+  implements kcache.watcher.Done
+  requires [objinv] (and (not (= {w} vnil)) (not (= {w.lc} vnil)))
+  ensures [done-of-its-own-lifecycle] (= result (lc-done {w.lc}))
+@*/
+/*@ func (*kcache._watcher).Error
+  props C14
+  theory actors
+  implements kcache.watcher.Error
+  requires [objinv] (and (not (= {w} vnil)) (not (= {w.lc} vnil)))
+  ensures [error-of-its-own-lifecycle] (= result (lc-error {w.lc}))
+@*/
+/*@ func (*kcache._cache).Done
+  props C12 C15
+  theory actors
+  implements kcache.cache.Done
+  requires [objinv] (and (not (= {c} vnil)) (not (= {c.lc} vnil)))
+  ensures [done-of-its-own-lifecycle] (= result (lc-done {c.lc}))
+@*/
+/*@ func (*kcache._cache).Error
+  props C14
+  theory actors
+  implements kcache.cache.Error
+  requires [objinv] (and (not (= {c} vnil)) (not (= {c.lc} vnil)))
+  ensures [error-of-its-own-lifecycle] (= result (lc-error {c.lc}))
+@*/
+/*@ func (*kcache._watchSession).events
+  props C04
+  implements kcache.watchSession.events
+  requires [objinv] (not (= {s} vnil))
+  ensures [the-sessions-output-channel] (= result {s.outch})
+@*/
+/*@ func (*kcache._watchSession).Error
+  props C14
+  theory actors
+  implements kcache.watchSession.Error
+  requires [objinv] (and (not (= {s} vnil)) (not (= {s.lc} vnil)))
+  ensures [error-of-its-own-lifecycle] (= result (lc-error {s.lc}))
+@*/
+/*@ func (kcache.nullWatchSession).events
+  props C04
+  implements kcache.watchSession.events
+  ensures [the-null-session-has-no-events] (= result vnil)
+@*/
+/*@ func (kcache.nullWatchSession).stop
+  props C04 C12
+  implements kcache.watchSession.stop
+@*/
+/*@ func (kcache.nullWatchSession).Error
+  props C14
+  implements kcache.watchSession.Error
+  ensures (= result vnil)
+@*/
+/*@ func (*kcache.builder).Lister
+  props C13
+  requires (not (= {b} vnil))
+  ensures [the-builders-own-lister-builder] (= result {b.lb})
+@*/
+/*@ func (*kcache.builder).Watcher
+  props C04
+  requires (not (= {b} vnil))
+  ensures [the-builders-own-watcher-builder] (= result {b.wb})
+@*/
